@@ -1,10 +1,10 @@
 (* C07 -- non-vacuity: concrete non-trivial inputs meet the hypotheses of the theorems of
    Props.v, and the theorems' conclusions are observed on them by computation (tests, not proofs
    of anything general). *)
-From Coq Require Import QArith Qcanon ZArith List Arith Bool Field.
+From Coq Require Import QArith Qcanon ZArith List Arith Bool Field Lia.
 From Verif.lib Require Import Bsp.
 From Verif.C02 Require Import Proofs Proofs_ref.
-From Verif.C07 Require Import Model Proofs Discharge Algebra Props.
+From Verif.C07 Require Import Model Proofs Discharge Ends Hess More Algebra Disk Chain Props.
 Import ListNotations.
 Open Scope Qc_scope.
 
@@ -62,13 +62,49 @@ Proof.
   change (kv_n ex_kv2 - 1)%nat with 3%nat. cbn [fst snd rdot]. ring.
 Qed.
 
-(* boundary_is_trace applied: the 'bottom' side (axis 0, side 0) of ex_f *)
-Example ex_boundary : forall u c,
-  g_val (boundary ex_f 0 0) [u] c = g_val ex_f [0; u] c.
+(* open_ends: hypothesis of boundary_is_trace / nurbs_boundary_is_trace / support_restriction_spec *)
+Example ex_open_ends : open_ends ex_kv2 /\ open_ends ex_kv1.
 Proof.
-  intros u c.
-  exact (boundary_is_trace [] ex_kv2 [ex_kv1] (co ex_f) 2%nat [] [u] 0 0%nat c eq_refl eq_refl ex_hend).
+  split; (split; [apply open_kv_ok_l; vm_compute; reflexivity|apply qltb_iff; vm_compute; reflexivity]).
 Qed.
+
+(* boundary_is_trace applied: the 'bottom' (axis 0, side 0) and 'right' (axis 1, side 1) sides of ex_f *)
+Example ex_boundary : forall u c,
+  g_val (boundary ex_f 0 0) [u] c = g_val ex_f [0; u] c
+  /\ g_val (boundary ex_f 1 1) [u] c = g_val ex_f [u; 1] c.
+Proof.
+  intros u c. split.
+  - exact (boundary_is_trace [] ex_kv2 [ex_kv1] (co ex_f) 2%nat [] [u] 0%nat c eq_refl eq_refl (proj1 ex_open_ends)).
+  - exact (boundary_is_trace [ex_kv2] ex_kv1 [] (co ex_f) 2%nat [u] [] 1%nat c eq_refl eq_refl (proj2 ex_open_ends)).
+Qed.
+
+(* support restricted to [1/4, 3/4] x [1/4, 1/2]: boundary('top') (axis 0, side 1) is f at y = 3/4 *)
+Example ex_restricted : forall u c,
+  let ov := Some [(qq 1 4, qq 3 4); (qq 1 4, qq 1 2)] in
+  r_boundary_val ov ex_f 0 1 [u] c = g_val ex_f [qq 3 4; u] c.
+Proof.
+  intros u c ov.
+  exact (proj2 (support_restriction_spec ov [] ex_kv2 [ex_kv1] (co ex_f) 2%nat [] [u] 1%nat c eq_refl eq_refl
+                 (fun E => match E in (_ = o) return match o with Some _ => True | None => open_ends ex_kv2 end with eq_refl => I end))).
+Qed.
+
+(* cylinderize: hypotheses met, the new component is the affine map of the new coordinate *)
+Example ex_cylinderize :
+  qeqb (call_val (b_cylinderize ex_f (qq 1 1) (qq 3 1) (qq 1 2) (qq 3 2)) (ex_xs ++ [qq 1 1]) 2) (qq 2 1) = true
+  /\ call_val (b_cylinderize ex_f (qq 1 1) (qq 3 1) (qq 1 2) (qq 3 2)) (ex_xs ++ [qq 1 1]) 0 = call_val ex_f ex_xs 0.
+Proof.
+  split; [vm_compute; reflexivity|].
+  rewrite (cylinderize_spec ex_f (qq 1 1) (qq 3 1) (qq 1 2) (qq 3 2) ex_xs (qq 1 1) 0); [reflexivity| | | |exact ex_dom];
+    apply qleb_iff || apply qltb_iff; vm_compute; reflexivity.
+Qed.
+
+(* ComposedFunction: geo2 = a bilinear scalar function on [0,4]^2 (contains the image of ex_f), geo1 = ex_f *)
+Definition ex_kv04 : KV := ([0; 0; qq 4 1; qq 4 1], 1%nat).
+Definition ex_g2 : bsp := mk_bsp [ex_kv04; ex_kv04] (arr [2; 2]%nat 1 [0; 1; qq 2 1; qq 5 1]) 1.
+Example ex_composed_dom : Forall2 in_dom (kvs ex_g2) (rev (comp_point ex_f (rev ex_xs))).
+Proof. constructor; [|constructor; [|constructor]]; apply in_dom_of_bool; vm_compute; reflexivity. Qed.
+Example ex_composed : comp_val ex_g2 ex_f (rev ex_xs) 0 = Some (call_val ex_g2 (comp_point ex_f (rev ex_xs)) 0).
+Proof. exact (proj1 (composed_routes ex_g2 ex_f (rev ex_xs) 0 ex_composed_dom)). Qed.
 
 (* a NURBS function with positive weights: hypotheses of nurbs_translate_spec / nurbs_is_quotient *)
 Definition ex_n : bsp :=
@@ -135,3 +171,26 @@ Example ex_nurbs_getitem_last :
   | Some k => qeqb (n_val (n_select ex_n [k]) [qq 1 3; qq 1 5] 0) (n_val ex_n [qq 1 3; qq 1 5] 1)
   | None => false end = true.
 Proof. vm_compute. reflexivity. Qed.
+
+(* nurbs_hessian_is_derivative: hypotheses met by ex_n (sdim 2, slot 1 = xy), conclusion observed *)
+Example ex_nurbs_hess_slot : nth 1 (triu (sdim ex_n)) (0, 0)%nat = (0, 1)%nat /\ (1 < length (triu (sdim ex_n)))%nat.
+Proof. split; [reflexivity|vm_compute; repeat constructor]. Qed.
+Example ex_triu3 : triu 3 = [(0, 0); (0, 1); (0, 2); (1, 1); (1, 2); (2, 2)]%nat.
+Proof. reflexivity. Qed.
+
+(* disk: the unit constraints are met in Qc by (4/5, 3/5) and by the exact rotation (0, -1) *)
+Example ex_disk_Qc : forall r,
+  on_circle Qc 1 Qcplus Qcmult Qcminus r (disk_T Qc 0 1 Qcplus Qcmult Qcminus Qcopp cc ss 0 (- (1)) r).
+Proof.
+  intros r.
+  refine (proj2 (proj2 (proj2 (disk_boundary_on_circle Qc 0 1 Qcplus Qcmult Qcminus Qcopp Qcdiv Qcinv Qcft cc ss 0 (- (1)) r ex_unit _)))).
+  ring.
+Qed.
+
+(* basis_interpolatory_at_ends observed on ex_kv2 *)
+Example ex_ends : map (fun j => Nref (fst ex_kv2) 2 j 0) (seq 0 4) = map (fun j => if Nat.eqb j 0 then 1 else 0) (seq 0 4).
+Proof.
+  apply map_ext_in. intros j Hj. apply in_seq in Hj.
+  apply (proj1 (basis_interpolatory_at_ends (fst ex_kv2) 2 j (proj1 (proj1 ex_open_ends)) ltac:(unfold numdofs; simpl; lia))).
+  exact (proj2 (proj1 ex_open_ends)).
+Qed.
